@@ -79,6 +79,10 @@ fn corpus() -> Vec<&'static str> {
         "prog 3 2 0 - neq v0 v1 eq v2 v0 eq v2 v1",
         "prog 2 2 0 - conde 2 1 eq v0 i1 2 neq v0 i1 eq v1 v0",
         "prog 2 2 0 - neq comp0 cons v0 cons v1 nil comp0 cons i1 cons i2 nil eq v0 i1",
+        // C02-m: a stored disequality re-run when both sides have become non-variable with a variable nested inside
+        "prog 2 2 0 - neq v0 cons cons i1 nil nil eq v0 cons cons v1 nil nil eq v1 i1",
+        "prog 2 2 0 - eq v1 i1 neq v0 cons cons i1 nil nil eq v0 cons cons v1 nil nil",
+        "prog 2 2 0 - neq v0 cons cons i1 nil nil eq v0 cons cons v1 nil nil",
     ]
 }
 
@@ -130,7 +134,15 @@ pub fn run(seed: u64, thorough: bool, out: &mut Out) {
     for i in 0..n {
         let mut r = Rng::new(seed, 2, i);
         let g = TreeGen { nq: 1 + r.below(2), nh: r.below(3), compounds: r.chance(1, 3), max_atoms: 6, conde: r.chance(1, 2) };
-        let p = if r.chance(1, 5) { out.stat("store_pass_scenarios"); TreeGen::store_pass(&mut r) } else { g.prog(&mut r) };
+        let p = if r.chance(1, 5) {
+            out.stat("store_pass_scenarios");
+            TreeGen::store_pass(&mut r)
+        } else if r.chance(1, 5) {
+            out.stat("nested_rerun_scenarios");
+            TreeGen::nested_rerun(&mut r)
+        } else {
+            g.prog(&mut r)
+        };
         let sols = solutions(&p);
         record(&p, Some(&sols), out, "written_order");
         // the same program under permutations of its conjunctions: same ground solutions required
